@@ -78,10 +78,13 @@ theorem found_in_document_partial (d : Doc) (b : Box6) (st : Sty) (hu : Unique (
       · intro c' hc' hne
         exact hearlier c' (by simp [hc']) hne
 
-/-- **generated names never collide** with an automatic style of the family (content.xml font faces
-    and automatic styles, styles.xml automatic styles) -/
-theorem automatic_name_is_fresh (d : Doc) (family : String) (s : Sty) (hs : s ∈ d.cFont ++ d.cAuto ++ d.sAuto)
-    (hf : s.family = family) : s.name ≠ some (.auto (autoIndex d family + 1)) := autoIndex_fresh d family s hs hf
+/-- **generated names never collide** with a style of the family in any container the lookup of that
+    family searches (content.xml font faces and automatic styles, then the containers of
+    CONTEXT_MAPPING): whatever `get_style(family, name)` could find has another name -/
+theorem automatic_name_is_fresh (d : Doc) (family : String) (b : Box6)
+    (hb : b ∈ contentContexts family ++ stylesContexts family) (s : Sty) (hs : s ∈ d.box b) (hf : s.family = family) :
+    s.name ≠ some (.auto (autoIndex d family + 1)) :=
+  autoIndex_fresh d family s (List.mem_flatMap.2 ⟨b, hb, hs⟩) hf
 
 /-- **merge**: a style of the other document ends in the container it comes from, its homonym in
     the receiving part is gone; the other document is a value the function does not return: it
